@@ -372,18 +372,18 @@ class File(resource.Resource, filepath.FilePath[str]):
                 start, end = byteRange.split(b"-", 1)
             except ValueError:
                 raise ValueError(f"Invalid Byte-Range: {byteRange!r}")
+            # A byte position is 1*DIGIT: int() alone would also accept a sign
+            # or underscores.
             if start:
-                try:
-                    start = int(start)
-                except ValueError:
+                if not start.strip().isdigit():
                     raise ValueError(f"Invalid Byte-Range: {byteRange!r}")
+                start = int(start)
             else:
                 start = None
             if end:
-                try:
-                    end = int(end)
-                except ValueError:
+                if not end.strip().isdigit():
                     raise ValueError(f"Invalid Byte-Range: {byteRange!r}")
+                end = int(end)
             else:
                 end = None
             if start is not None:
